@@ -50,7 +50,7 @@ theorem bump_spec {s : St} {n : Int} {a : Bool} {s' : St} {failed : Bool} {ev : 
   unfold Inv at *
   have hb : s.indx + n ≤ newlen ∧ s.len ≤ newlen := by
     subst hnl; unfold INITIAL at *; split <;> (try split) <;> omega
-  by_cases h1 : newlen > CAP
+  by_cases h1 : newlen > CAP ∧ s.indx + n > CAP
   · rw [if_pos h1] at hr
     simp only [Prod.mk.injEq] at hr
     obtain ⟨rfl, rfl, rfl⟩ := hr
@@ -64,8 +64,7 @@ theorem bump_spec {s : St} {n : Int} {a : Bool} {s' : St} {failed : Bool} {ev : 
     | true =>
       simp only [Bool.not_true, Bool.false_eq_true, if_false, Prod.mk.injEq] at hr
       obtain ⟨rfl, rfl, rfl⟩ := hr
-      unfold CAP at h1
-      refine ⟨?_, rfl, rfl, ?_, ?_, AllIn.nil _⟩ <;> dsimp only <;> unfold INITIAL CAP at * <;> omega
+      refine ⟨?_, rfl, rfl, ?_, ?_, AllIn.nil _⟩ <;> dsimp only <;> unfold INITIAL CAP at * <;> split <;> omega
 
 theorem guard_spec {s : St} {n : Int} {a : Bool} {s' : St} {failed : Bool} {ev : List Ev}
     (h : Inv s) (hr : guard s n a = (s', failed, ev)) :
